@@ -172,6 +172,29 @@ pub fn c09(tier: &str) -> i32 {
         }
     }
 
+    // (a'') alias-relation closure (kind classes + which roots are the same cell / reach each other): RefCell borrow
+    //       conflicts and teardown problems depend on aliasing between operands, whatever the path length
+    for p in (0..=5u8).rev() {
+        let (d, m) = match (quick, p) {
+            (true, 5) => (3, 1),
+            (true, _) => (2, 1),
+            (false, 0) => (4, 2),
+            (false, _) => (3, 2),
+        };
+        let opts = Opts { max_depth: d, max_memo: m, dev_budget: 0, frame: FrameSel::Off, ref_in_key: false, alias_key: true, ..Opts::default() };
+        let t0 = Instant::now();
+        let ex = Explorer { base_cfg: Cfg::new(p).flags(true, true), opts, monitor: &guard, xval_full: Default::default() };
+        let out = ex.explore(None);
+        let l = format!("P{p}/none/alias-relation/D{d}M{m}");
+        if verbose {
+            eprintln!("plan {l:<40} states={:>8} transitions={:>10} {:.2}s", out.stats.states, out.stats.transitions, t0.elapsed().as_secs_f64());
+        }
+        rep.add_stats(&l, &out.stats);
+        for fd in &out.found {
+            rep.finding(fd);
+        }
+    }
+
     // (a') kind-keyed closure with value deviations: reaches states with memo entries and every mutator gate/value
     //      combination at a small depth (the alias-exact search above is bounded by path length instead)
     for p in (0..=5u8).rev() {
